@@ -388,8 +388,18 @@ def run(tier):
     ck.floor("generated methods in repository", stats["methods"] - n_corpus, 80)
     # results cross the boundary through the conversion rows (C02/C12) and, for #[int_result] methods, through the four integer-code
     # helpers: a helper that mis-decodes a code changes the result of the opaque call although forwarding is intact
-    from rules import c13
+    from rules import c13, c04
     c13.check_helpers(ck)
+    # ... and a method marked for the lossless CResult form that is silently integer-coded loses its error value
+    exp = corpus.expect(tier)
+    ck.floor("corpus methods with a stated transport", c13.check_transport(ck, m, "corpus", c13.corpus_transport_expect(exp)), 300)
+    # every exportable method of the hand-written corpus traits has its slot (a method without one runs the trait's default body
+    # instead of the implementor's override)
+    expected = {}
+    for it in exp["items"]:
+        if it["kind"] == "fixed":
+            expected[it["trait"]] = ("cgv_corpus::" + it["mod"] + "::", it["slots"])
+    c04.check_vtables(ck, m, "corpus", expected)
     ck.extra["methods_checked"] = stats["methods"]
     ck.extra["excluded_custom_or_vtbl_only"] = stats["excluded"]
     ck.extra["methods_without_opaque_impl_in_unit"] = sorted(set(stats["no_opaque"]))[:40]
